@@ -230,6 +230,10 @@ ErrIffDeadline == \A i \in Ids : out[i].done => (out[i].err = deadline[i])
 NoStuckSurvey == \A i \in Ids : st[i] # "stuck"
 NoBlockedCallback == blocked = {}
 
+\* witness generators (survey_wit.cfg): "properties" whose counterexamples are the schedules every run must replay
+WitLateLocalDrop == [][~(step'.act = "LocalReply" /\ step'.fate = "dropped")]_vars
+WitLateRemoteDrop == [][~(step'.act = "Deliver" /\ step'.fate = "dropped")]_vars
+
 \* progress within the model: a survey that started can always be brought to its return
 CanFinish == \A i \in Ids : st[i] \in {"handler", "collecting", "exited"} => ENABLED (HandlerDone(i) \/ Deadline(i) \/ Return(i))
 =============================================================================
